@@ -9,6 +9,7 @@ import (
 
 type instCtx struct {
 	e       *Engine
+	mulPool map[string][]*Term // ground x occurring as bvmul(x, c), keyed by c
 	pool    map[*Sort][]*Term // candidate index terms by array sort of the select they occur under
 	appArgs map[string][][]*Term
 	seenIdx map[*Term]bool
@@ -63,6 +64,22 @@ func (ic *instCtx) collect(t *Term, visited map[*Term]bool) {
 	}
 	if t.Op == "app" && !t.hasBV && len(t.Args) > 0 {
 		ic.appArgs[t.Name] = append(ic.appArgs[t.Name], t.Args)
+	}
+	if t.Op == "bvmul" && !t.hasBV {
+		for i := 0; i < 2; i++ {
+			if t.Args[i].IsConst() && !t.Args[1-i].IsConst() {
+				k := t.Args[i].Val.String()
+				dup := false
+				for _, x := range ic.mulPool[k] {
+					if x == t.Args[1-i] {
+						dup = true
+					}
+				}
+				if !dup {
+					ic.mulPool[k] = append(ic.mulPool[k], t.Args[1-i])
+				}
+			}
+		}
 	}
 	for _, a := range t.Args {
 		ic.collect(a, visited)
@@ -158,6 +175,15 @@ func (ic *instCtx) candidates(body, k *Term) []*Term {
 						} else {
 							add(tb.Sub(c, g))
 						}
+					}
+				}
+			}
+		}
+		if t.Op == "bvmul" {
+			for i := 0; i < 2; i++ {
+				if t.Args[i] == k && t.Args[1-i].IsConst() {
+					for _, x := range ic.mulPool[t.Args[1-i].Val.String()] {
+						add(x)
 					}
 				}
 			}
@@ -286,7 +312,7 @@ func (ic *instCtx) rewrite(t *Term, pol bool, qc map[*Term]bool, depth int) *Ter
 // Prepare returns quantifier-free hypotheses (the negated goal included) for obligation o.
 func (e *Engine) PrepareQF(o *Obligation) []*Term {
 	tb := e.tb
-	ic := &instCtx{e: e, pool: map[*Sort][]*Term{}, appArgs: map[string][][]*Term{}, seenIdx: map[*Term]bool{}, skCache: map[*Term]*Term{}}
+	ic := &instCtx{e: e, mulPool: map[string][]*Term{}, pool: map[*Sort][]*Term{}, appArgs: map[string][][]*Term{}, seenIdx: map[*Term]bool{}, skCache: map[*Term]*Term{}}
 	all := append([]*Term{}, o.Hyps...)
 	if o.Goal != nil && !o.Cover {
 		all = append(all, tb.Not(o.Goal))
